@@ -149,6 +149,8 @@ def replay_paths(args):
                 ble.hop_channel()
             elif name == "SetCh":
                 ble.channel = a[0]
+            elif name == "SetName":
+                ble.name = b"nRF24L01" if a[0] else None
             elif name == "Advertise":
                 ev = b.advertise(single=(b"\x07\x08", 0xFF))
                 ev["history"] = [n + (str(x[0]) if x else "") for n, x in labels]
@@ -168,9 +170,9 @@ def run(chk):
     g = Graph.load("BleAdv", "BleAdv", timeout=600, args=["-maxSetSize", "10000000"], workers=1) if False else None
     g = Graph.load("BleAdv", "BleAdv", timeout=600, workers=4)
     chk.add_tlc(g.result, "channel history model")
-    paths = g.tour()
-    lab = [[g.label(l) for (_, l, _) in p] for p in paths]
     rng = random.Random(chk.seed + 18)
+    paths = g.tour() + g.random_walks(rng, 300 if quick else 5000, 16)
+    lab = [[g.label(l) for (_, l, _) in p] for p in paths]
     specs = []
     for nlen in range(0, 21):
         for ntype in ("str", "bytes", "none"):
